@@ -63,11 +63,11 @@ ARGV_SHAPES = [
 ]
 
 
-def run_tool(workdir, header_path, config, argv_shape, hash_seed, fail=False, tag=""):
+def run_tool(workdir, header_path, config, argv_shape, hash_seed, fail=False, tag="", keep_existing=False):
     out_path = os.path.join(workdir, "out%s-%d.h" % (tag, hash_seed))
     argv_log = os.path.join(workdir, "argv%s-%d.txt" % (tag, hash_seed))
     for pth in (out_path, argv_log):
-        if os.path.exists(pth):
+        if os.path.exists(pth) and not (keep_existing and pth == out_path):
             os.remove(pth)
     pre = []
     if config is not None:
@@ -175,6 +175,16 @@ def eval_case(case, keep_dir=None):
                 e0 = header.find("}", s0)
                 if header[s0:e0] not in text:
                     return {"violation": {"class": "bindgen.foreign_decl", "site": "body", "msg": "body of %r was altered" % m}, "stats": stats}
+        # history of runs into the same output path: regenerate over an existing, longer header
+        if case.get("rewrite"):
+            hs0 = case["hash_seeds"][0]
+            longer = {"function_prefix": "a_rather_long_prefix_for_every_wrapper"}
+            r1 = run_tool(d, hp, longer, case["argv"], hs0, tag="w")
+            r2 = run_tool(d, hp, config, case["argv"], hs0, tag="w", keep_existing=True)
+            stats["tool_runs"] += 2
+            stats["fault.rewrite_existing_output"] = stats.get("fault.rewrite_existing_output", 0) + 1
+            if r1["rc"] == 0 and r2["rc"] == 0 and r2["output"] != outs[hs0]:
+                return {"violation": {"class": "bindgen.output_path", "site": "rewrite", "msg": "regenerating into an existing output file gives %d bytes, a fresh path gives %d bytes for the same input and configuration (old content left behind?)" % (len(r2["output"] or b""), len(outs[hs0]))}, "stats": stats}
         # probe (not an oracle): what the tool does when cbindgen fails
         if case.get("probe_fail"):
             r = run_tool(d, hp, config, case["argv"], case["hash_seeds"][0], fail=True, tag="f")
@@ -198,6 +208,7 @@ def case_for(seed, i, tier):
         "argv": r.below(len(ARGV_SHAPES)),
         "hash_seeds": [base + j * 17 + 1 for j in range(k)],
         "probe_fail": r.chance(1, 10),
+        "rewrite": r.chance(1, 4),
     }
 
 
@@ -234,7 +245,7 @@ def minimise_case(case, cls):
                     cands.append(dict(m, traits=m["traits"][:ti] + [nt] + m["traits"][ti + 1:]))
         for ci in range(1, len(m["contexts"])):
             cands.append(dict(m, contexts=m["contexts"][:ci] + m["contexts"][ci + 1:]))
-        for flag in ("leftover", "foreign_early", "foreign_names", "guard", "group"):
+        for flag in ("leftover", "generic_objs", "foreign_early", "foreign_names", "guard", "group"):
             if m.get(flag):
                 cands.append(dict(m, **{flag: False}))
         for c in cands:
@@ -292,7 +303,7 @@ def phase_bindgen(prop, tier, seed, report):
         "runs_per_hour": int(n / wall * 3600) if wall > 0 else 0,
         "tool_processes": stats.get("tool_runs", 0), "cc_syntax_checks": stats.get("cc_runs", 0),
         "distinct_outputs": len(digests), "distinct_model_shapes (traits, contexts, leftover, config, argv)": len(shapes),
-        "faults_fired": {"hash_seed": stats.get("fault.hash_seed", 0), "subprocess_fail": stats.get("fault.subprocess_fail", 0)},
+        "faults_fired": {"hash_seed": stats.get("fault.hash_seed", 0), "subprocess_fail": stats.get("fault.subprocess_fail", 0), "rewrite_existing_output": stats.get("fault.rewrite_existing_output", 0)},
         "probes": {"tool_nonzero_when_cbindgen_fails": stats.get("probe.tool_nonzero_when_cbindgen_fails", 0)},
     })
     report["samples"] += [{"engine": "gensim.bindgen", "case": {k: v for k, v in cases[i].items()}, "model": hdrgen.describe(hdrgen.gen_model(cases[i]["model_seed"]))} for i in (0, n // 2)]
@@ -336,6 +347,191 @@ def replay_bindgen(prop, doc, path):
         log("VIOLATION property=%s replay=%s" % (prop, path))
         log("#   class=%s site=%s" % (r["violation"]["class"], r["violation"]["site"]))
         log("#   %s" % r["violation"]["msg"])
+        return 1
+    log("# replay did not fail: the recorded violation (%s) does not occur on this tree" % doc["violation"]["class"])
+    return 0
+
+
+# --------------------------------------------------------------------------------------------
+# C04(a): the macro expander as a process under owned hash seeds and listing permutations
+# --------------------------------------------------------------------------------------------
+
+EXPSIM = os.path.join(SIM, "target", "debug", "expsim")
+EXP_INPUTS = [os.path.join(SIM, "objsim", "src", "corpus.rs"), os.path.join(SIM, "objsim", "src", "implementors_gen.rs")]
+
+
+def run_expsim(src, hash_seed, permute=None):
+    env = dict(os.environ, LD_PRELOAD=SHIM_SO, SIMRAND_SEED=str(hash_seed))
+    cmd = [EXPSIM, src] + (["--permute", str(permute)] if permute is not None else [])
+    p = subprocess.run(cmd, env=env, stdout=subprocess.PIPE, stderr=subprocess.PIPE, text=True)
+    if p.returncode != 0:
+        return None, p.stderr[-600:]
+    return p.stdout, p.stderr
+
+
+def parse_projection(text):
+    decl, structs, inits = {}, {}, {}
+    gdecl = {}
+    for line in text.splitlines():
+        if line.startswith("gdecl "):
+            m = re.match(r"gdecl (\S+) mand: (.*) opt: (.*)$", line)
+            if m:
+                gdecl[m.group(1)] = (m.group(2).split(), m.group(3).split())
+            continue
+        if line.startswith("decl "):
+            name, _, ms = line[5:].partition(": ")
+            decl[name] = ms.split()
+        elif line.startswith("struct "):
+            name = line[7:].split(" ", 1)[0]
+            body = line[line.index("{") + 1:line.rindex("}")]
+            fields = []
+            for f in body.split("; "):
+                f = f.strip()
+                if f:
+                    fname, _, fty = f.partition(": ")
+                    fields.append((fname, fty))
+            structs[name] = fields
+        elif line.startswith("init "):
+            name = line[5:].split(" ", 1)[0]
+            body = line[line.index("{") + 1:line.rindex("}")]
+            inits[name] = [tuple(x.strip().split(" = ", 1)) for x in body.split("; ") if x.strip()]
+    structs["__gdecl__"] = gdecl
+    return decl, structs, inits
+
+
+def order_violation(text):
+    decl, structs, inits = parse_projection(text)
+    for t, methods in sorted(decl.items()):
+        vt = structs.get(t + "Vtbl")
+        if vt is None:
+            continue
+        got = [f for f, _ in vt if not f.startswith("_")]
+        if got != methods:
+            return {"class": "layout.vtable_order", "site": t, "msg": "vtable of %s has slots %r but the trait declares %r (one function pointer per exported method, in declaration order)" % (t, got, methods)}
+        ini = [(a, b) for a, b in inits.get(t + "Vtbl", []) if not a.startswith("_")]
+        for slot, fn in ini:
+            if fn != "cglue_wrapped_" + slot:
+                return {"class": "layout.slot_wiring", "site": t, "msg": "default vtable of %s fills slot %s with %s" % (t, slot, fn)}
+        if [a for a, _ in ini] != methods:
+            return {"class": "layout.slot_wiring", "site": t, "msg": "default vtable of %s initialises slots %r, declared %r" % (t, [a for a, _ in ini], methods)}
+    gdecl = structs.pop("__gdecl__", {})
+    for n, fs in sorted(structs.items()):
+        if n.endswith("Container") and fs and fs[0][0] == "instance" or (n.endswith("Container") and any(f == "instance" for f, _ in fs)):
+            names = [f for f, _ in fs]
+            ok = len(names) >= 2 and names[0] == "instance" and names[1] == "context" and all(x.startswith("ret_tmp") for x in names[2:])
+            if not ok:
+                return {"class": "layout.container_order", "site": n, "msg": "container %s is laid out as %r; expected instance, context, temporary storage" % (n, names)}
+    for g, (mand_names, opt_names) in sorted(gdecl.items()):
+        if g not in structs:
+            continue
+        # name order = order of the trait names / aliases as identifiers (case-sensitive)
+        want = ["vtbl_" + x.lower() for x in sorted(mand_names)] + ["vtbl_" + x.lower() for x in sorted(opt_names)] + ["container"]
+        got = [f for f, _ in structs[g]]
+        if got != want:
+            return {"class": "layout.group_order", "site": g, "msg": "group %s is laid out as %r; name order of its traits gives %r" % (g, got, want)}
+    groups = [n for n in structs if (n + "Container") in structs and any(f.startswith("vtbl_") for f, _ in structs[n])]
+    for g in sorted(groups):
+        fields = structs[g]
+        names = [f for f, _ in fields]
+        vt = [(f, ty) for f, ty in fields if f.startswith("vtbl_")]
+        mand = [f for f, ty in vt if "Option<" not in ty]
+        opt = [f for f, ty in vt if "Option<" in ty]
+        if names != mand + opt + ["container"]:
+            return {"class": "layout.group_order", "site": g, "msg": "group %s is laid out as %r; expected mandatory vtables, optional vtables, container" % (g, names)}
+        base = [f for f, _ in vt]
+        for n, fs in structs.items():
+            if n != g and n.startswith(g) and (n.startswith(g + "With") or n.startswith(g + "FinalWith")):
+                seq = [f for f, _ in fs if f.startswith("vtbl_")]
+                it = iter(base)
+                if not all(x in it for x in seq) or [f for f, _ in fs][-1] != "container":
+                    return {"class": "layout.group_order", "site": n, "msg": "variant %s orders its vtables %r, the group orders them %r" % (n, seq, base)}
+    return None
+
+
+def phase_expander(prop, tier, seed, report):
+    from driver_main import cargo_build
+    build_shim()
+    cargo_build("expsim", False)
+    k = 8 if tier == "quick" else 96
+    pn = 6 if tier == "quick" else 64
+    t0 = time.time()
+    jobs = []
+    for src in EXP_INPUTS:
+        for i in range(k):
+            jobs.append((src, seed * 1009 + i * 31 + 1, None))
+        for j in range(pn):
+            jobs.append((src, seed * 1009 + 5, seed * 77 + j))
+    with ThreadPoolExecutor(max_workers=WORKERS) as ex:
+        outs = list(ex.map(lambda jb: run_expsim(*jb), jobs))
+    wall = time.time() - t0
+    viol = []
+    ref = {}
+    digests = set()
+    for (src, hs, perm), (out, err) in zip(jobs, outs):
+        name = os.path.basename(src)
+        if out is None:
+            viol.append({"class": "expand.rejects_corpus", "site": name, "msg": "the expander failed on the corpus definitions: %s" % err.replace("\n", " | "), "case": {"source": name, "hash_seed": hs, "permute": perm}})
+            continue
+        digests.add(hashlib.sha256((name + out).encode()).hexdigest())
+        if name not in ref:
+            ref[name] = (out, hs, perm)
+            ov = order_violation(out)
+            if ov:
+                ov["case"] = {"source": name, "hash_seed": hs, "permute": perm}
+                viol.append(ov)
+        elif out != ref[name][0]:
+            a = ref[name][0].splitlines()
+            b = out.splitlines()
+            diff = [(x, y) for x, y in zip(a, b) if x != y][:1]
+            cls = "expand.nondeterministic_layout" if perm is None else "expand.listing_order_dependent"
+            viol.append({"class": cls, "site": name, "msg": "layout projection of the expansion differs (%s): first differing line %r vs %r" % (
+                "hash seed %d vs %d" % (ref[name][1], hs) if perm is None else "traits listed in another order (permutation %d)" % perm, diff[0][0][:160] if diff else "", diff[0][1][:160] if diff else ""),
+                "case": {"source": name, "hash_seed": hs, "permute": perm, "reference_hash_seed": ref[name][1]}})
+    n = len(jobs)
+    report["evaluations"] += n
+    report["distinct_nontrivial"] += n if not viol else len(digests)
+    report["jobs"].append({
+        "engine": "gensim.expander", "binary": "expsim (links cglue-gen from /repo as a library)", "runs": n, "wall_s": round(wall, 2),
+        "runs_per_hour": int(n / wall * 3600) if wall > 0 else 0, "hash_seeds": k, "listing_permutations": pn,
+        "expansions_per_run": {"corpus.rs": 15, "implementors_gen.rs": 38}, "distinct_projections": len(digests),
+        "faults_fired": {"hash_seed": k * len(EXP_INPUTS), "listing_permutation": pn * len(EXP_INPUTS)},
+    })
+    report["samples"].append({"engine": "gensim.expander", "case": {"source": "corpus.rs", "hash_seed": jobs[0][1]}, "projection_head": (outs[0][0] or "").splitlines()[:3]})
+    out = []
+    seen = set()
+    for v in viol:
+        key = (v["class"], v["site"])
+        if key in seen:
+            continue
+        seen.add(key)
+        os.makedirs(os.path.join(REPLAYS, prop), exist_ok=True)
+        path = os.path.join(REPLAYS, prop, "expander-seed%d-%s-%s.json" % (seed, v["class"].replace(".", "_"), re.sub(r"[^A-Za-z0-9]", "_", v["site"])))
+        with open(path, "w") as f:
+            json.dump({"kind": "expander", "property": prop, "tier": tier, "seed": seed, "case": v["case"], "violation": {k2: v[k2] for k2 in ("class", "site", "msg")}}, f, indent=1, sort_keys=True)
+            f.write("\n")
+        out.append({"replay": path, "class": v["class"], "msg": v["msg"]})
+    return out
+
+
+def replay_expander(prop, doc, path):
+    from driver_main import cargo_build
+    build_shim()
+    cargo_build("expsim", False)
+    c = doc["case"]
+    src = [s for s in EXP_INPUTS if os.path.basename(s) == c["source"]][0]
+    out, err = run_expsim(src, c["hash_seed"], c.get("permute"))
+    v = None
+    if out is None:
+        v = {"class": "expand.rejects_corpus", "msg": err}
+    else:
+        v = order_violation(out)
+        if v is None and (c.get("reference_hash_seed") is not None or c.get("permute") is not None):
+            ref, _ = run_expsim(src, c.get("reference_hash_seed", c["hash_seed"]), None)
+            if ref != out:
+                v = {"class": doc["violation"]["class"], "msg": "projection differs from the reference run"}
+    if v:
+        log("VIOLATION property=%s replay=%s" % (prop, path))
+        log("#   class=%s: %s" % (v["class"], v.get("msg", "")[:300]))
         return 1
     log("# replay did not fail: the recorded violation (%s) does not occur on this tree" % doc["violation"]["class"])
     return 0
